@@ -618,16 +618,36 @@ class Ctx:
             return cache[k]
         out = set()
         for g in fn.family():
-            for b in g.body.blocks:
+            body = g.body
+            reads = {}
+            for b in body.blocks:
                 if b.cleanup:
                     continue
                 for (_, pl, rv) in b.stmts:
                     for (l, place) in __import__('core').rvalue_reads(rv):
-                        out.update(field_keys(place, adt_name, is_enum))
+                        for fk in field_keys(place, adt_name, is_enum):
+                            reads.setdefault(fk, set()).add(pl[0])
                 if b.term[0] == 'call':
                     for a in b.term[1].args:
                         if a[0] in ('copy', 'move'):
-                            out.update(field_keys(a[1], adt_name, is_enum))
+                            for fk in field_keys(a[1], adt_name, is_enum):
+                                reads.setdefault(fk, set()).add(b.term[1].dest[0])
+            # a value-returning function only "reads" a field for its caller if the value read can reach what the caller gets back:
+            # the return value, a `&mut` parameter, or a branch condition (a field read into a dead local does not count)
+            exact = g is fn and g.kind != 'closure' and (g.ret or '()') not in ('()', '!')
+            if not exact:
+                out.update(reads)
+                continue
+            outs = set(body.ret_carriers())
+            for l in range(1, body.argc + 1):
+                if body.lty(l).startswith('&mut'):
+                    outs.add(l)
+            for b in body.blocks:
+                if not b.cleanup and b.term[0] == 'sw' and b.term[1][0] in ('copy', 'move'):
+                    outs.add(b.term[1][1][0])
+            for fk, starts in reads.items():
+                if flows_forward(body, set(starts), True) & outs:
+                    out.add(fk)
         cache[k] = out
         return out
 
